@@ -3,6 +3,10 @@
 from seeded/*/meta.json."""
 import json, os, re, glob
 V = os.path.dirname(os.path.dirname(os.path.abspath(__file__)))
+try:
+    HIST = json.load(open(os.path.join(V, "seeded", "HISTORY.json")))
+except Exception:
+    HIST = {}
 rows = ["| change | breaks | what it needs to manifest | our check | history |", "|---|---|---|---|---|"]
 for d in sorted(glob.glob(os.path.join(V, "seeded", "*"))):
     try:
@@ -21,7 +25,7 @@ for d in sorted(glob.glob(os.path.join(V, "seeded", "*"))):
         return s if len(s) <= n else s[:n - 1] + "…"
     rows.append("| %s | %s | %s | %s (%s tier, %ss) | %s |" % (os.path.basename(d), m.get("property"), clip(m.get("summary"), 230) + " — needs: " + clip(m.get("needs"), 200),
                 verdict, cmd, (oc or {}).get("wall_s", "?") if not isinstance(oc, str) else "?", "", ) if False else
-                "| %s | %s | %s | %s | %s (%s) | %s |" % (os.path.basename(d), m.get("property"), clip(m.get("summary"), 220), clip(m.get("needs"), 200), verdict, cmd, clip(m.get("history"), 260) or "caught as the check stood"))
+                "| %s | %s | %s | %s | %s (%s) | %s |" % (os.path.basename(d), m.get("property"), clip(m.get("summary"), 220), clip(m.get("needs"), 200), verdict, cmd, clip(m.get("history") or HIST.get(os.path.basename(d)), 420) or "caught as the check stood"))
 rows[0] = "| change | breaks | what the change does | what it needs to manifest | our check | history |"
 rows[1] = "|---|---|---|---|---|---|"
 p = os.path.join(V, "DESIGN.md")
